@@ -1,0 +1,6 @@
+//go:build !verif
+// +build !verif
+
+package index
+
+func verifHook(ev string, w *Writer, args ...interface{}) {}
